@@ -824,7 +824,8 @@ func jpfToNumber(arguments []interface{}) (interface{}, error) {
 	}
 	if v, ok := arg.(string); ok {
 		conv, err := strconv.ParseFloat(v, 64)
-		if err != nil {
+		if err != nil || math.IsNaN(conv) || math.IsInf(conv, 0) {
+			// "inf", "infinity" and "nan" parse without error but are not JSON numbers.
 			return nil, nil
 		}
 		return conv, nil
